@@ -26,7 +26,7 @@ def selections(fi: FuncInfo) -> List[Tuple[ast.AST, str, str]]:
         if isinstance(n, ast.Subscript) and isinstance(n.slice, ast.Constant) and n.slice.value in (0, -1):
             src = origin(defs, n.value)
             if isinstance(src, ast.Call) and isinstance(src.func, ast.Name) and src.func.id == "sorted":
-                out.append((n, "sorted(...)[0]", _tie(src), alpha(src, fn) + f"[{n.slice.value}]"))
+                out.append((n, "sorted(...)[0]", _tie(src), _selection_text(src, "smallest" if n.slice.value == 0 else "largest", fn)))
             elif isinstance(src, ast.Call) and isinstance(n.ctx, ast.Load) and call_name(src) not in ("split", "partition", "rsplit", "groups", "shape"):
                 # first / last element of a collection produced elsewhere: whatever order the producer happens to use decides
                 out.append((n, "<call>(...)[0]", "iteration-order", alpha(src, fn) + f"[{n.slice.value}]"))
@@ -44,11 +44,23 @@ def selections(fi: FuncInfo) -> List[Tuple[ast.AST, str, str]]:
                 continue
             if isinstance(arg, ast.GeneratorExp):
                 continue  # max over computed numbers, not a choice among candidates
-            out.append((n, f"{n.func.id}(...)", _tie(n), alpha(n, fn)))
+            out.append((n, f"{n.func.id}(...)", _tie(n), _selection_text(n, "smallest" if n.func.id == "min" else "largest", fn)))
         if isinstance(n, ast.Call) and isinstance(n.func, ast.Name) and n.func.id == "next" and n.args \
                 and isinstance(n.args[0], ast.Call) and call_name(n.args[0]) == "iter":
             out.append((n, "next(iter(...))", "iteration-order", alpha(n, fn)))
     return out
+
+
+def _selection_text(call: ast.Call, which: str, fn) -> str:
+    """what is selected, independent of the idiom: `sorted(X, key=K)[0]` and `min(X, key=K)` pick the same element"""
+    key = kwarg(call, "key")
+    coll = alpha(call.args[0], fn) if call.args else "?"
+    if key is None:
+        return f"{which} of {coll} (elements compared directly)"
+    if isinstance(key, ast.Lambda):
+        txt = alpha(key, fn)   # "lambda _k: <body>"
+        return f"{which} of {coll} by key {txt.split(':', 1)[1].strip() if ':' in txt else txt} (as a function of {txt.split(':', 1)[0].replace('lambda', '').strip()})"
+    return f"{which} of {coll} by key {alpha(key, fn)}"
 
 
 def _tie(call: ast.Call) -> str:
